@@ -29,7 +29,7 @@ MANIFEST = dict(
          "forward code with one- or two-byte (wide) characters (vm_sound_forward), and backward code - proved to be the forward code of the mirrored expression - run with "
          "RE_FLAGS_BACKWARDS, byte or wide (vm_sound_backward: L <= start and the expression matches buf[start-L, start)). "
          "the atoms handed to yr_ac_add_string (Model/ReAtoms.lean: walk with the sliding window, trim, OR/AND tree, choice - for EVERY quality function - wildcard expansion, widened atoms, case variants, zero-length atom) cover every match, for every expression, byte or wide matching, with or without nocase: one of these byte sequences occurs literally inside the match at the position of the node it begins at (reAtoms_cover; the position statement - before / node / after, code entry points - for loop-free expressions in Thm/C02); NOT proved: runs entering the code at an atom's instruction (the forward+backward composition of _yr_scan_verify_re_match; at specification level: decompose), the "
-         "fast matcher, VM completeness for regular expressions (epsilon-loops, counted repeats with the repeat stack, fiber limits; proved for hex code only: Thm/C02 vm_complete_hex_partial, with the executable-side lemma exec_complete - pass / loop / exec report every accepting path in exhaustive mode - holding for every code), atom extraction, Aho-Corasick. That gap is covered by SAMPLING on "
+         "fast matcher, VM completeness for regular expressions (epsilon-loops, counted repeats with the repeat stack, fiber limits; proved for hex code - Thm/C02 vm_complete_hex - and for the STAR-FREE fragment: vm_complete_starfree_partial - for every expression built from consuming one-character nodes (literals, ., classes, \\w \\W \\s \\S \\d \\D), the empty expression, .{n,m}, concatenation and alternation whose first branch cannot be left without consuming a character (decidable predicate starFree), all buffers, start positions, nocase / dot-all flags, byte mode: every match of length <= 1024 at the start position is reported by the exhaustive forward run that ends without error (<= 256 alternatives); the same for the backward code (vm_complete_starfree_backward_partial); excluded: * + e{n,m}, ^ $ \\b \\B, alternatives with a passable first branch such as (|a), wide mode; the executable-side lemma vm_reports_accepting - pass / loop / exec report every accepting path in exhaustive mode - holds for every code), atom extraction, Aho-Corasick. That gap is covered by SAMPLING on "
          "every run: generated regexes (<= 12 nodes, all-greedy / all-lazy, anchors, word boundaries, classes, /i /s, nocase ascii wide fullword, atoms forced into groups, "
          "branches and repeats) x buffers (< 1024 bytes) through the real engine vs. the compiled Lean specification (complete match lists, `matches` verdicts through literal "
          "and external operands), the parser AST tie (incl. class bitmaps and greedy flags), the real bytecode through the C VM and the Lean VM model, the whole-expression code "
